@@ -39,7 +39,7 @@ Definition enc_cfg (c : cfg) : list Z :=
    b2z (c_valid c); c_errno c; zlen (c_vars c)] ++ concat (map enc_var (c_vars c)) ++ [zlen (c_dfa c)] ++ c_dfa c.
 
 Definition enc_st (s : st) : list Z :=
-  [s_counter s; b2z (s_v2 s); match s_toc s with None => 0 | Some _ => 1 end; b2z (s_link s);
+  [s_counter s; b2z (s_v2 s); match s_toc s with None => 0 | Some _ => 1 end; b2z (s_link s); b2z (s_rp s);
    zlen (s_blocks s)] ++ map Z.of_nat (s_blocks s) ++ [zlen (s_cfgs s)] ++ concat (map enc_cfg (s_cfgs s)).
 
 (* The 61/89-bit digest costs ~0.2 ms per numeral inside Coq, so the state (hundreds of numerals after
